@@ -138,10 +138,16 @@ STD_RULES = [
     # rule 2: casts and vector observers
     [r'\bstatic_cast<([^<>]+)>\s*\(', r'(\1)(', '*'],
     [r'\((int|size_t|long long)\)\s*(\w+)\.size\(\)', r'((\1)\2_size)', '*'],
-    [r'\b(\w+)\.size\(\)', r'\1_size', '*'],
+    [r'\b(\w+)\.size\(\)', r'((size_t)\1_size)', '*'],
     [r'\b(\w+)\.empty\(\)', r'(\1_size == 0)', '*'],
     [r'\b(\w+)\.back\(\)', r'\1[\1_size - 1]', '*'],
     [r'\b(\w+)\.front\(\)', r'\1[0]', '*'],
+    # rule 9: container operations on lowered vectors (models in prelude/containers_abs.h)
+    [r'\b(\w+)\.reserve\([^;]*\);', '', '*'],
+    [r'\b(\w+)\.insert\(\s*\1\.end\(\),\s*(\w+)\.begin\(\),\s*\2\.end\(\)\)', r'VEC_APPEND(\1, \2)', '*'],
+    [r'\b(\w+)\.push_back\(', r'VEC_PUSH_BACK(\1, ', '*'],
+    [r'\b(\w+)\.clear\(\)', r'VEC_CLEAR(\1)', '*'],
+    [r'\b(\w+)\.resize\(', r'VEC_RESIZE(\1, ', '*'],
     # rule 4: throw
     [r'\bthrow\s+std::runtime_error\s*\((?:[^;]|\n)*?\)\s*;', 'VERIF_THROW;', '*', 's'],
     # dropped keywords
@@ -170,6 +176,31 @@ def lower_range_for(text, log):
         text = text[:m.start()] + head + text[m.end():]
         n += 1
     log.append({'rule': 'range-for', 'fired': n, 'must': '*'})
+    return text
+
+
+def lower_try(text, log):
+    """rule 8: try { B } catch (...) { H }  =>  { B' } verif_catch_N: if (verif_exc) { verif_exc = 0; H' }
+    where B' propagates exceptions of may-throw calls to the handler (VERIF_PROPAGATE -> goto) and
+    H' re-raises on `throw;`.  Only catch (...) handlers are admitted."""
+    n = 0
+    while True:
+        m = re.search(r'\btry\s*\{', text)
+        if not m:
+            break
+        ob = m.end() - 1
+        cb = match_close(text, ob, '{', '}')
+        mc = re.compile(r'\s*catch\s*\(\s*\.\.\.\s*\)\s*\{').match(text, cb + 1)
+        if not mc:
+            raise ExtractionBroken('try block without a catch (...) handler is outside the vocabulary')
+        hb = mc.end() - 1
+        he = match_close(text, hb, '{', '}')
+        label = 'verif_catch_%d' % n
+        body = text[ob + 1:cb].replace('VERIF_PROPAGATE;', 'VERIF_PROPAGATE_TO(%s);' % label)
+        handler = re.sub(r'\bthrow\s*;', 'VERIF_THROW;', text[hb + 1:he])
+        text = (text[:m.start()] + '{' + body + '} ' + label + ': if (verif_exc) { verif_exc = 0; ' + handler + '}' + text[he + 1:])
+        n += 1
+    log.append({'rule': 'try/catch(...) lowering', 'fired': n, 'must': '*'})
     return text
 
 
